@@ -100,6 +100,25 @@ func vServerSession(tok, payload []byte, key [4]byte) []byte {
 	wsutil.WriteServerMessage(conn, ws.OpClose, ws.NewCloseFrameBody(ws.StatusNormalClosure, "bye"))
 	obs = append(obs, conn.out...)
 	obs = append(obs, ws.CompiledPing...)
+	// a malformed close frame big enough for the pooled buffers (reserved code 1005 + reason)
+	bad := append([]byte{0x03, 0xED}, bytes.Repeat([]byte{'z'}, 68)...)
+	bad[2] = payload[0]
+	cconn := &vHalf{in: vMaskedFrame(8, true, key, bad)}
+	_, _, cerr := wsutil.ReadClientData(cconn)
+	if cerr == nil {
+		return append(obs, "bad-close-accepted"...)
+	}
+	obs = append(obs, cconn.out...)
+	// and a client-side masked write of a pooled size right afterwards
+	out := &vRecW{}
+	msg := append(bytes.Repeat([]byte{'m'}, 99), payload[1])
+	wsutil.WriteClientMessage(out, ws.OpBinary, msg)
+	if len(out.all) != 6+100 {
+		return append(obs, "client-write-error"...)
+	}
+	for i := 0; i < 100; i++ {
+		obs = append(obs, out.all[6+i]^out.all[2+i%4])
+	}
 	return obs
 }
 
